@@ -96,6 +96,7 @@ func VerifHarness_C07_channel_timers() {
 	vFire(cb.lifetimeTimer)
 	vAssert(a.GetChannelByNumber(n) == nil, "C07.expired_binding_gone_by_number")
 	vAssert(a.GetChannelByAddr(p) == nil, "C07.expired_binding_gone_by_peer")
+	vAssert(vAnd(a.GetChannelByNumber(n) == nil, a.GetChannelByAddr(p) == nil), "C08.expired_binding_maps_neither_number_nor_peer")
 	vAssert(a.GetPermission(p) == perm, "C07.channel_expiry_leaves_the_peers_permission_alone")
 	vAssert(vAnd(vTimerArmed(perm.lifetimeTimer), vTimerDeadline(perm.lifetimeTimer) == c1+int64(pt2)), "C07.channel_expiry_leaves_the_permission_timer_alone")
 	q := VUDPAddr()
@@ -104,7 +105,9 @@ func VerifHarness_C07_channel_timers() {
 	if vBool() {
 		vAssert(a.AddChannelBind(NewChannelBind(n, q, log), ct, pt) == nil, "C07.freed_number_can_be_bound_to_any_peer")
 	} else {
-		vAssert(a.AddChannelBind(NewChannelBind(n2, p, log), ct, pt) == nil, "C07.freed_peer_can_be_bound_to_any_number")
+		e := a.AddChannelBind(NewChannelBind(n2, p, log), ct, pt)
+		vAssert(e == nil, "C07.freed_peer_can_be_bound_to_any_number")
+		vAssert(e == nil, "C08.freed_peer_can_be_bound_to_any_number")
 	}
 	vReach("end")
 }
